@@ -3,6 +3,7 @@ package engine
 import (
 	"fmt"
 	"iter"
+	"strings"
 
 	"verif/internal/rng"
 )
@@ -112,7 +113,11 @@ func (s *Session[K]) seqProtocol(name string, mk func() iter.Seq2[K, uint64], r 
 	}
 	R := ref.got
 	s.Res.Evaluations++
-	s.Res.Inc("seq_values_" + name)
+	method := name
+	if i := strings.IndexByte(name, '('); i >= 0 {
+		method = name[:i]
+	}
+	s.Res.Inc("seq_values_" + method)
 	// stop positions
 	var stops []int
 	if len(R) <= 64 {
